@@ -57,22 +57,28 @@
 (* Soundness notes (why a correct client can never be rejected):           *)
 (*  - Only lower bounds on time are demanded.  The reference of a demand   *)
 (*    is `base`: a time that is provably not later than any instant from   *)
-(*    which a client may count its delay (first transient reply of the     *)
-(*    host, advanced by D / Retry-After each time a demand was applied and *)
-(*    met), so scheduling noise can only enlarge the measured gap.         *)
+(*    which a client may count its delay (first failed reply of the host,  *)
+(*    of any kind, advanced by D / Retry-After each time a demand was      *)
+(*    applied and met), so scheduling noise - including a late wake-up     *)
+(*    from an earlier back-off sleep - can only enlarge the measured gap.  *)
 (*  - The back-off demand applies to a request when the failed logical     *)
 (*    request is known not to have opted out of back-off (layer 1: the ie  *)
 (*    flag of the Req), or, when that is unknown (layer 2), when the       *)
-(*    request repeats the failed one (same sig, nothing else in between):  *)
-(*    a retry is what the back-off exists for.                             *)
+(*    request repeats the failed one at once (same sig, same host, no      *)
+(*    other request in between): a retry is what the back-off exists for,  *)
+(*    and a request that opted out is never re-sent to the same host at    *)
+(*    once (its host is dropped from the round).                           *)
 (*  - For the order rule a host counts as backing off when its window was  *)
 (*    still open at the earliest instant the client can have ordered the   *)
 (*    hosts (t0 of the round); "a backing-off host was tried first" is     *)
 (*    only claimed for Retry-After windows that extend at least `slack`    *)
 (*    beyond the start of the call (layer 1 only).                         *)
-(*  - waive = <<"prio">> (used only to re-validate traces already reported *)
-(*    under the known finding S1) skips the priority clause and nothing    *)
-(*    else.                                                                *)
+(*  - A violation of the priority order is reported as priority-ascending *)
+(*    when the offer is exactly what sorting the priorities the wrong way  *)
+(*    round gives (known finding S1), else as priority-other.              *)
+(*    waive = <<"prio-asc">> skips exactly the first case and nothing      *)
+(*    else; it is used for the bulk validation, S1 itself is reported from *)
+(*    traces validated without it.                                         *)
 (***************************************************************************)
 EXTENDS Integers, Sequences, FiniteSets, TLC
 
@@ -89,9 +95,9 @@ NewRound(t, sig) == [t0 |-> t, tried |-> {}, dropped |-> {}, failed |-> {}, sig 
 
 MZero == [R |-> 0, D |-> 0, up |-> "", hosts |-> {}, prio |-> <<>>, slack |-> 0, waive |-> {},
           layer |-> 0, lq |-> <<>>, rd |-> NewRound(0, ""), hs |-> <<>>,
-          lastk |-> "", lasttr |-> 0, lastsig |-> "",
+          lastk |-> "", lasttr |-> 0, lastsig |-> "", lasth |-> "",
           runn |-> 0, runfail |-> 0, maxrunfail |-> 0,
-          nfail |-> 0, injt |-> 0, injo |-> 0, bad |-> ""]
+          nfail |-> 0, nbo |-> 0, injt |-> 0, injo |-> 0, bad |-> ""]
 
 \* ---------------------------------------------------------------- reset
 PHeader(e) ==
@@ -123,8 +129,10 @@ POp(m, e) == [m EXCEPT !.rd = NewRound(e.tc, ""), !.lastk = "", !.lasttr = e.tc,
                        !.runn = 0, !.runfail = 0]
 
 \* -------------------------------------------------------------- attempts
-ShouldPrio(m, g, h) == "prio" \notin m.waive /\ m.prio[g] > m.prio[h]
+ShouldPrio(m, g, h) == m.prio[g] > m.prio[h]
 ShouldUp(m, g, h)   == m.prio[g] = m.prio[h] /\ h = m.up /\ g # m.up
+\* the order an ascending sort of the priorities (registry last among equals) would give
+KeyLe(m, a, b) == m.prio[a] < m.prio[b] \/ (m.prio[a] = m.prio[b] /\ (a # m.up \/ b = m.up))
 
 PAtt2(m, e) ==
   LET h     == e.h
@@ -143,9 +151,13 @@ PAtt2(m, e) ==
       ie    == IF known THEN m.lq[e.id].ie ELSE IF l1 THEN 0 ELSE 2
       hs    == m.hs[h]
       \* back-off demand: does it apply to this request?
-      applies == hs.armed > 0 /\ (hs.fie = 0 \/ (hs.fie = 2 /\ hs.fsig = e.sig /\ m.lastsig = e.sig))
+      applies == hs.armed > 0 /\ (hs.fie = 0 \/ (hs.fie = 2 /\ hs.fsig = e.sig /\ m.lastsig = e.sig /\ m.lasth = h))
       others == (m.hosts \ rd.tried) \ {h}
       idle(g) == rd.t0 >= m.hs[g].until          \* g was certainly not backing off when the round began
+      \* is this offer exactly what sorting the priorities the wrong way round would produce?
+      asc   == /\ \A g \in rd.tried : KeyLe(m, g, h)
+               /\ \A g \in others : idle(g) => KeyLe(m, h, g)
+      prioBad == e.mir = 1 /\ \E g \in others : idle(g) /\ ShouldPrio(m, g, h)
       m1 == First(m, <<
               <<l1 /\ ~known, "trace-malformed">>,
               <<e.k = "cap", "runaway">>,
@@ -154,7 +166,8 @@ PAtt2(m, e) ==
               <<applies /\ e.ta < hs.due, IF hs.armed = 2 THEN "retry-after-gap" ELSE "backoff-gap">>,
               <<e.mir = 1 /\ \E g \in others : idle(g) /\ rd.t0 + m.slack < hs.untilra,
                 "mirror-order:backoff-first">>,
-              <<e.mir = 1 /\ \E g \in others : idle(g) /\ ShouldPrio(m, g, h), "mirror-order:priority">>,
+              <<prioBad /\ asc /\ "prio-asc" \notin m.waive, "mirror-order:priority-ascending">>,
+              <<prioBad /\ ~asc, "mirror-order:priority-other">>,
               <<e.mir = 1 /\ \E g \in others : idle(g) /\ ShouldUp(m, g, h), "mirror-order:upstream-not-last">>
             >>)
       \* the demand was applied and met: the client's own reference is now at least `due`
@@ -162,7 +175,8 @@ PAtt2(m, e) ==
       \* layer 2: a truncated body arms too (the hook `cut` does not exist there); the demand then
       \* only applies to the resuming request, which proves that the client met the early end
       arms  == (e.k \in Transient \/ (~l1 /\ e.k = "trunc")) /\ ie # 1
-      base2 == IF arms /\ base1 = 0 THEN e.tr ELSE base1
+      \* a client may count from any failure of the host, also one this monitor does not arm on
+      base2 == IF e.k \notin Success /\ base1 = 0 THEN e.tr ELSE IF arms /\ base1 = 0 THEN e.tr ELSE base1
       due2  == IF ~arms THEN 0 ELSE IF e.k = "ra" /\ e.ra > 0 THEN Max2(base2, e.tr + e.ra) ELSE base2 + m.D
       hs2   == [hs EXCEPT !.base = base2,
                           !.armed = IF ~arms THEN 0 ELSE IF e.k = "ra" /\ e.ra > 0 THEN 2 ELSE 1,
@@ -170,7 +184,8 @@ PAtt2(m, e) ==
                           !.until = IF arms THEN Max2(@, IF e.k = "ra" THEN e.tr + e.ra ELSE e.tr + m.D) ELSE @,
                           !.untilra = IF arms /\ e.k = "ra" /\ l1 THEN Max2(@, e.tr + e.ra) ELSE @]
       failed == e.k \notin Success
-      rfail == (IF newrun THEN 0 ELSE m.runfail) + (IF failed THEN 1 ELSE 0)
+      \* layer 2: replies of this run that cost the logical request an attempt without completing it
+      rfail == (IF newrun THEN 0 ELSE m.runfail) + (IF e.k # "ok" THEN 1 ELSE 0)
   IN [m1 EXCEPT
         !.hs[h] = hs2,
         !.lq = IF known THEN [m.lq EXCEPT ![e.id].n = n] ELSE m.lq,
@@ -178,11 +193,13 @@ PAtt2(m, e) ==
                           !.dropped = IF e.k \in DropClass THEN @ \cup {h} ELSE @,
                           !.failed = IF failed THEN @ \cup {h} ELSE @,
                           !.sig = e.sig],
-        !.lastk = e.k, !.lasttr = e.tr, !.lastsig = e.sig,
+        !.lastk = e.k, !.lasttr = e.tr, !.lastsig = e.sig, !.lasth = h,
         !.runn = IF l1 THEN 0 ELSE n,
         !.runfail = IF l1 THEN 0 ELSE rfail,
         !.maxrunfail = IF l1 THEN 0 ELSE Max2(m.maxrunfail, rfail),
         !.nfail = IF failed THEN @ + 1 ELSE @,
+        \* replies that may count against a host in the client's back-off book-keeping
+        !.nbo = IF e.k \in Transient \cup {"trunc", "other"} THEN @ + 1 ELSE @,
         !.injt = IF e.inj = 1 /\ e.k \in Transient \cup {"trunc"} THEN @ + 1 ELSE @,
         !.injo = IF e.inj = 1 /\ e.k \notin Transient \cup {"trunc"} THEN @ + 1 ELSE @]
 
@@ -211,7 +228,9 @@ PRet(m, e) ==
                  <<e.ok = 1 /\ e.eq = 0, "wrong-content">> >>)
 
 PResult(m, e) ==
-  LET pre == m.injo = 0 /\ m.injt < m.R /\ m.maxrunfail < m.R
+  \* only transient faults were injected, fewer than the limit; and neither one logical request
+  \* (run) nor the hosts' failure history (natural failures of mirrors included) reached it
+  LET pre == m.injo = 0 /\ m.injt < m.R /\ m.maxrunfail < m.R /\ m.nbo < m.R
   IN First(m, << <<pre /\ (e.eqret = 0 \/ e.eqstate = 0), "result-differs">> >>)
 
 \* ------------------------------------------------------------------ step
